@@ -430,6 +430,19 @@ class Inst:
         return rows[r:] + rows[:r]
 
 
+class IterOnly:
+    """an iterable that is no Collection: no __len__, no __contains__, no __getitem__; can be iterated any number of times"""
+
+    def __init__(self, elems):
+        self._elems = elems
+
+    def __iter__(self):
+        return iter(self._elems)
+
+    def __repr__(self):
+        return f"IterOnly{self._elems!r}"
+
+
 def _resolve(val, by_spec, inst):
     """('@', domkey, i) -> the object; tuples/lists are resolved element-wise; ('list', ...) builds a list"""
     if isinstance(val, tuple):
@@ -439,6 +452,8 @@ def _resolve(val, by_spec, inst):
             return [_resolve(e, by_spec, inst) for e in val[1:]]
         if len(val) == 2 and val[0] == "raw!":        # ("raw!", value): the value as it is (not resolved, not renamed)
             return val[1]
+        if val and val[0] == "iter!":              # ("iter!", 1, 2) -> a re-iterable object that has __iter__ and nothing else
+            return IterOnly(tuple(inst.v(e) for e in val[1:]))
         if val and val[0] == "fset!":              # ("fset!", 1, 2) -> frozenset({1, 2})   (a partially ordered value)
             return frozenset(inst.v(e) for e in val[1:])
         return tuple(_resolve(e, by_spec, inst) for e in val)
